@@ -249,6 +249,31 @@ def make_value(spec: dict, sink=None, site=None):
     raise ValueError(spec)
 
 
+_PLACEHOLDER = __import__("re").compile(r"\$\{([A-Za-z_][A-Za-z0-9_]*)\}")
+
+
+def tcall_record(msgid, mapping) -> list:
+    """What a translation function is handed, made comparable: the message
+    id (whitespace collapsed) and the mapping entries of the names that
+    occur in it as ${name}."""
+    mid = _tnorm(msgid)
+    names = sorted(set(_PLACEHOLDER.findall(mid)))
+    mp = [[k, _tnorm((mapping or {}).get(k, "<absent>"))] for k in names]
+    return [mid, mp]
+
+
+_TTAG = __import__("re").compile(r"(<[^>]*>)")
+
+
+def _tnorm(v) -> str:
+    # (generated text has no whitespace outside tags: what there is comes
+    # from the source layout / tal:repeat separators - as in norm_out)
+    parts = _TTAG.split(str(v))
+    for i in range(0, len(parts), 2):
+        parts[i] = "".join(parts[i].split())
+    return "".join(parts)
+
+
 class Probe:
     """``P(k)`` inside templates."""
 
@@ -260,6 +285,7 @@ class Probe:
         self.count: dict[int, int] = {}
         self.history: list[int] = []
         self.raised: list = []        # (site, n, exception object)
+        self.tcalls: list = []        # what the translation function saw
 
     def __call__(self, k: int):
         n = self.count.get(k, 0)
@@ -284,6 +310,7 @@ class Probe:
         n = self.count.get("T", 0)
         self.count["T"] = n + 1
         self.history.append("T")
+        self.tcalls.append(tcall_record(msgid, mapping))
         do = self.plan.get(("T", n)) or self.plan.get(("T", "*"))
         if do is not None and do[0] == "raise":
             exc = ZOO[do[1]]()
